@@ -146,6 +146,49 @@ CLAIMS = {
         technique="index-algebra interpretation of set_rate and of one expansion step, TA evaluation "
                   "of the spectral-exponential expressions, ordering/pairing rules, alias rule",
         design="3/C17"),
+    "C05": dict(
+        text="Static decision of the structural clauses of C05: (U1) package-wide who-may-call over "
+             "resolved calls: only the units context managers, Manager and the public "
+             "set_current_units switch units or write the unit tables, so no library call can change "
+             "its caller's units outside a context; (U2) energy_units/length_units push the current "
+             "units of their own type on a per-object stack before switching and restore the popped "
+             "value of the same type unconditionally, keep the context counter balanced, clear the "
+             "flag iff zero, and do not swallow exceptions (re-entrant: nesting restores correctly even "
+             "for one object); frequency_units inherits this unchanged; (U3) every construction of a "
+             "units context in the package is a with-item (or a name only used as one), so exit on "
+             "exceptions is guaranteed by the language; (U4) every unit accepted by the contexts has a "
+             "conversion factor, internal units have factor one, energy/frequency factors agree, the "
+             "conversion functions look up the factor of the current units of their own type and are "
+             "mutually inverse for every unit - including the reciprocal nm branch - by scalar "
+             "algebra; (U5) every units-managed accessor converts to internal units on store and to "
+             "current units on read and every class declaring one inherits both converters of the "
+             "right type; (U6) the enforcement decorators test their flags. Hence a value stored "
+             "under one context and read under another is the exact conversion and the stored value is "
+             "context independent. Not decided: the numerical values of the factors.",
+        note=BASE_NOTE + "'with' guarantees __exit__.",
+        technique="who-may-call scan over resolved calls, protocol (ordering/pairing) rules on the AST "
+                  "of the context managers, with-only construction rule, constant folding of unit "
+                  "tables, scalar-algebra inverse proof, MRO-based converter resolution",
+        design="3/C05"),
+    "C15": dict(
+        text="Static decision of C15's structural content: an effect analysis (attribute/element "
+             "stores, in-place operations, mutating method calls and callee summaries) over every "
+             "propagator method, tensor/rate constructor, the evolution superoperator and the "
+             "OpenSystem factory methods reports every modification of a parameter or of an object held "
+             "in an input-carrying attribute; each accepted effect is in a frozen table with its reason "
+             "and the reason is itself checked (scratch reset before use, inhomogeneous term recomputed "
+             "per call, field frequency set/restore paired, protect/unprotect and subtract/recover "
+             "paired in nesting order on every normal path); the attributes a propagation may leave on "
+             "the propagator form a second frozen table (refinement restored in a finally, dephasing "
+             "factors rebuilt per call, flags re-derived from inputs); scratch hierarchy state and "
+             "superoperator data are re-initialised before first use. Two genuine open findings are "
+             "listed in known_findings.json. Not decided: bit-for-bit reproducibility of NumPy.",
+        note=BASE_NOTE + "Methods on unknown receivers are resolved by name (may-call); managed getters "
+             "only change representation.",
+        technique="effect (mutation) analysis with bottom-up function summaries over the resolved call "
+                  "graph, reset-before-use and pairing rules, frozen exception tables with checked "
+                  "justifications",
+        design="3/C15"),
 }
 
 NOT_YET = "check not built yet in this round (see DESIGN.md section 3 for the planned rules)"
